@@ -1,6 +1,10 @@
 #[cfg(feature = "std")]
+#[cfg(raptorq_verif_loom)]
+use loom::sync::{Arc, Mutex};
+#[cfg(feature = "std")]
 use std::collections::{HashMap, VecDeque};
 #[cfg(feature = "std")]
+#[cfg(not(raptorq_verif_loom))]
 use std::sync::{Arc, Mutex, OnceLock};
 #[cfg(feature = "std")]
 use std::vec::Vec;
@@ -204,6 +208,22 @@ struct SourceBlockEncodingPlanCache {
 }
 
 #[cfg(feature = "std")]
+#[cfg(raptorq_verif_loom)]
+loom::lazy_static! {
+    static ref VERIF_LOOM_CACHE: Mutex<SourceBlockEncodingPlanCache> =
+        Mutex::new(SourceBlockEncodingPlanCache::default());
+}
+
+// Same accessor for the loom build: the global is a loom lazy_static, so that it is fresh in every
+// explored execution and its initialisation is a scheduling point.
+#[cfg(feature = "std")]
+#[cfg(raptorq_verif_loom)]
+fn source_block_encoding_plan_cache() -> &'static Mutex<SourceBlockEncodingPlanCache> {
+    &VERIF_LOOM_CACHE
+}
+
+#[cfg(feature = "std")]
+#[cfg(not(raptorq_verif_loom))]
 fn source_block_encoding_plan_cache() -> &'static Mutex<SourceBlockEncodingPlanCache> {
     static CACHE: OnceLock<Mutex<SourceBlockEncodingPlanCache>> = OnceLock::new();
     CACHE.get_or_init(|| Mutex::new(SourceBlockEncodingPlanCache::default()))
@@ -241,6 +261,89 @@ fn get_or_generate_source_block_encoding_plan(symbol_count: u16) -> Arc<SourceBl
     guard.plans.insert(symbol_count, Arc::clone(&generated));
     generated
 }
+/// Verification hooks for the plan cache: (insertion order, sorted (key, plan.source_symbol_count)).
+#[cfg(all(raptorq_verif, feature = "std"))]
+pub fn verif_plan_cache_snapshot() -> (Vec<u16>, Vec<(u16, u16)>) {
+    let cache = source_block_encoding_plan_cache();
+    let guard = cache
+        .lock()
+        .unwrap_or_else(|poisoned| poisoned.into_inner());
+    let order: Vec<u16> = guard.insertion_order.iter().copied().collect();
+    let mut plans: Vec<(u16, u16)> = guard
+        .plans
+        .iter()
+        .map(|(key, plan)| (*key, plan.source_symbol_count))
+        .collect();
+    plans.sort_unstable();
+    (order, plans)
+}
+
+#[cfg(all(raptorq_verif, feature = "std"))]
+pub fn verif_plan_cache_clear() {
+    let cache = source_block_encoding_plan_cache();
+    let mut guard = cache
+        .lock()
+        .unwrap_or_else(|poisoned| poisoned.into_inner());
+    guard.plans.clear();
+    guard.insertion_order.clear();
+}
+
+#[cfg(all(raptorq_verif, feature = "std"))]
+pub fn verif_plan_cache_capacity() -> usize {
+    SOURCE_BLOCK_ENCODING_PLAN_CACHE_CAPACITY
+}
+
+#[cfg(raptorq_verif)]
+impl SourceBlockEncodingPlan {
+    /// Like `generate`, but with an explicit dense/sparse switch-over threshold.
+    pub fn verif_generate(symbol_count: u16, sparse_threshold: u32) -> SourceBlockEncodingPlan {
+        let symbols = vec![Symbol::new(vec![0]); symbol_count as usize];
+        let (_, ops) = gen_intermediate_symbols(&symbols, 1, sparse_threshold);
+        SourceBlockEncodingPlan {
+            operations: ops.unwrap(),
+            source_symbol_count: symbol_count,
+        }
+    }
+
+    pub fn verif_source_symbol_count(&self) -> u16 {
+        self.source_symbol_count
+    }
+
+    pub fn verif_num_operations(&self) -> usize {
+        self.operations.len()
+    }
+}
+
+#[cfg(raptorq_verif)]
+impl SourceBlockEncoder {
+    /// Build without any plan (direct solve) and with an explicit dense/sparse threshold.
+    pub fn verif_new_unplanned(
+        source_block_id: u8,
+        config: &ObjectTransmissionInformation,
+        data: &[u8],
+        sparse_threshold: u32,
+    ) -> SourceBlockEncoder {
+        let source_symbols = SourceBlockEncoder::create_symbols(config, data);
+        let (intermediate_symbols, _operations) = gen_intermediate_symbols(
+            &source_symbols,
+            config.symbol_size() as usize,
+            sparse_threshold,
+        );
+        SourceBlockEncoder {
+            source_block_id,
+            source_symbols,
+            intermediate_symbols: intermediate_symbols.unwrap(),
+        }
+    }
+
+    /// Read-only copy of the L intermediate symbols the encoder works from.
+    pub fn verif_intermediate_symbols(&self) -> Vec<Vec<u8>> {
+        (0..self.intermediate_symbols.len())
+            .map(|i| self.intermediate_symbols.get(i).to_vec())
+            .collect()
+    }
+}
+
 #[derive(Clone, Debug, PartialEq, Eq)]
 #[cfg_attr(feature = "serde_support", derive(Serialize, Deserialize))]
 pub struct SourceBlockEncoder {
